@@ -1,9 +1,9 @@
 ------------------------------ MODULE LruImpl ------------------------------
 (***************************************************************************)
 (* Code-shaped model of LruManager (cascette-client-storage::lru): a flat  *)
-(* table of Cap slots forming a doubly linked list (prev toward the LRU    *)
-(* tail, next toward the MRU head), a key map, a free list, and the        *)
-(* checkpoint file as a copy of (head, tail, slots).                       *)
+(* table of slots forming a doubly linked list (prev toward the LRU tail,  *)
+(* next toward the MRU head), a key map, a free list, and the checkpoint   *)
+(* file as a copy of (head, tail, slots).                                  *)
 (*                                                                         *)
 (* It refines the property-level Lru.tla through the mapping               *)
 (*      order = the keys met walking from `tail` along `next`.             *)
@@ -13,6 +13,11 @@
 (* - as an action property - that every operation changes `order` exactly  *)
 (* as the textbook operation of Lru.tla does.                              *)
 (*                                                                         *)
+(* The directory can be reopened by a tracker of another capacity          *)
+(* (Reopen(c), c \in Caps): `cap` is the capacity the tracker was created  *)
+(* with, `tsize` the size of its slot table.  A checkpoint records the     *)
+(* size of the table it copies.                                            *)
+(*                                                                         *)
 (* Variant re-introduces the pinned code's behaviour so that TLC           *)
 (* regenerates the counterexamples of the fixed defects:                   *)
 (*   "evict_leaks"   the public evict_tail does not return the slot to the *)
@@ -20,28 +25,43 @@
 (*   "zero_is_empty" occupancy is derived from the key bytes: the all-zero *)
 (*                   key (ZKey) counts as an empty slot on reload and is   *)
 (*                   skipped by enumeration (F17b)                         *)
+(*   "load_adopts_size"  load_from_disk adopts the checkpoint's table      *)
+(*                   whatever its size instead of rebuilding it in the     *)
+(*                   tracker's own size (F17d)                             *)
 (***************************************************************************)
 EXTENDS Naturals, Sequences, FiniteSets, TLC
 
-CONSTANTS Cap, Keys, ZKey, Variant
+CONSTANTS Cap,      \* capacity of the first tracker
+          Caps,     \* capacities the directory may be reopened with ({} = never reopened)
+          Keys, ZKey, Variant
 ASSUME ZKey \in Keys \/ ZKey = "none"
 
+MaxCap == CHOOSE m \in Caps \cup {Cap} : \A x \in Caps \cup {Cap} : x <= m
 Nil == 0                       \* LRU_SENTINEL
-Slots == 1..Cap
+Slots == 1..MaxCap             \* index space of every table that can occur
 Empty == [prev |-> Nil, next |-> Nil, key |-> "empty"]
+NoKeys == [k \in Keys |-> Nil]
+UpTo(c) == [i \in 1..c |-> i]
 
-VARIABLES slot,     \* Slots -> [prev, next, key]
+VARIABLES slot,     \* Slots -> [prev, next, key]   (only 1..tsize exist)
           head, tail,
           keymap,   \* key -> slot index or Nil
           free,     \* sequence of free slot indices (a stack)
-          disk      \* the checkpoint file: [valid, slot, head, tail] (valid = FALSE: no file)
+          cap,      \* the capacity this tracker was created with
+          tsize,    \* the size of its slot table
+          disk      \* the checkpoint file: [valid, slot, head, tail, size] (valid = FALSE: no file)
 
-vars == <<slot, head, tail, keymap, free, disk>>
+vars == <<slot, head, tail, keymap, free, cap, tsize, disk>>
+Mem  == [slot |-> slot, head |-> head, tail |-> tail, keymap |-> keymap, free |-> free]
+Fresh(c) == [slot |-> [i \in Slots |-> Empty], head |-> Nil, tail |-> Nil, keymap |-> NoKeys, free |-> UpTo(c)]
+Becomes(m) == slot' = m.slot /\ head' = m.head /\ tail' = m.tail /\ keymap' = m.keymap /\ free' = m.free
 
-Init == /\ slot = [i \in Slots |-> Empty] /\ head = Nil /\ tail = Nil
-        /\ keymap = [k \in Keys |-> Nil]
-        /\ free = [i \in 1..Cap |-> i]      \* the code pops from the end
-        /\ disk = [valid |-> FALSE, slot |-> [i \in Slots |-> Empty], head |-> Nil, tail |-> Nil]
+Init ==
+        /\ slot = [i \in Slots |-> Empty] /\ head = Nil /\ tail = Nil
+        /\ keymap = NoKeys
+        /\ free = UpTo(Cap)                 \* the code pops from the end
+        /\ cap = Cap /\ tsize = Cap
+        /\ disk = [valid |-> FALSE, slot |-> [i \in Slots |-> Empty], head |-> Nil, tail |-> Nil, size |-> Cap]
 
 \* ---- list surgery (unlink / link_at_head), as functions on (slot, head, tail) ----
 Unlinked(s, h, t, i) ==
@@ -56,85 +76,103 @@ LinkedAtHead(s, h, t, i) ==
       s2 == IF h # Nil THEN [s1 EXCEPT ![h].next = i] ELSE s1
   IN [s |-> s2, h |-> i, t |-> IF h = Nil THEN i ELSE t]
 
-\* ---- operations ------------------------------------------------------------------
-EvictTailCore ==   \* returns the record after unlinking and clearing the tail slot
-  LET u == Unlinked(slot, head, tail, tail) IN
-  [s |-> [u.s EXCEPT ![tail] = Empty], h |-> u.h, t |-> u.t, victim |-> tail, key |-> slot[tail].key]
+\* ---- operations, as functions on the in-memory record m ----------------------------
+EvictTailCore(m) ==   \* the record after unlinking and clearing the tail slot
+  LET u == Unlinked(m.slot, m.head, m.tail, m.tail) IN
+  [s |-> [u.s EXCEPT ![m.tail] = Empty], h |-> u.h, t |-> u.t, victim |-> m.tail, key |-> m.slot[m.tail].key]
 
-Touch(k) ==
-  IF keymap[k] # Nil THEN
-     LET i == keymap[k]
-         u == Unlinked(slot, head, tail, i)
+TouchF(m, k) ==
+  IF m.keymap[k] # Nil THEN
+     LET i == m.keymap[k]
+         u == Unlinked(m.slot, m.head, m.tail, i)
          l == LinkedAtHead(u.s, u.h, u.t, i)
-     IN slot' = l.s /\ head' = l.h /\ tail' = l.t /\ UNCHANGED <<keymap, free, disk>>
-  ELSE IF free # <<>> THEN
-     LET i == free[Len(free)]
-         s1 == [slot EXCEPT ![i] = [prev |-> Nil, next |-> Nil, key |-> k]]
-         l == LinkedAtHead(s1, head, tail, i)
-     IN /\ slot' = l.s /\ head' = l.h /\ tail' = l.t
-        /\ keymap' = [keymap EXCEPT ![k] = i] /\ free' = SubSeq(free, 1, Len(free) - 1) /\ UNCHANGED disk
-  ELSE IF tail = Nil THEN UNCHANGED vars          \* capacity 0 (or every slot leaked): touch fails
+     IN [m EXCEPT !.slot = l.s, !.head = l.h, !.tail = l.t]
+  ELSE IF m.free # <<>> THEN
+     LET i == m.free[Len(m.free)]
+         s1 == [m.slot EXCEPT ![i] = [prev |-> Nil, next |-> Nil, key |-> k]]
+         l == LinkedAtHead(s1, m.head, m.tail, i)
+     IN [slot |-> l.s, head |-> l.h, tail |-> l.t,
+         keymap |-> [m.keymap EXCEPT ![k] = i], free |-> SubSeq(m.free, 1, Len(m.free) - 1)]
+  ELSE IF m.tail = Nil THEN m          \* capacity 0 (or every slot leaked): touch fails
   ELSE
-     LET e == EvictTailCore
+     LET e == EvictTailCore(m)
          i == e.victim
          s1 == [e.s EXCEPT ![i] = [prev |-> Nil, next |-> Nil, key |-> k]]
          l == LinkedAtHead(s1, e.h, e.t, i)
-     IN /\ slot' = l.s /\ head' = l.h /\ tail' = l.t
-        /\ keymap' = [[keymap EXCEPT ![e.key] = Nil] EXCEPT ![k] = i]
-        /\ UNCHANGED <<free, disk>>
+     IN [slot |-> l.s, head |-> l.h, tail |-> l.t,
+         keymap |-> [[m.keymap EXCEPT ![e.key] = Nil] EXCEPT ![k] = i], free |-> m.free]
+
+Touch(k) == Becomes(TouchF(Mem, k)) /\ UNCHANGED <<cap, tsize, disk>>
 
 Remove(k) ==
   IF keymap[k] = Nil THEN UNCHANGED vars
   ELSE LET i == keymap[k] u == Unlinked(slot, head, tail, i) IN
        /\ slot' = [u.s EXCEPT ![i] = Empty] /\ head' = u.h /\ tail' = u.t
-       /\ keymap' = [keymap EXCEPT ![k] = Nil] /\ free' = Append(free, i) /\ UNCHANGED disk
+       /\ keymap' = [keymap EXCEPT ![k] = Nil] /\ free' = Append(free, i) /\ UNCHANGED <<cap, tsize, disk>>
 
 EvictTail ==
   IF tail = Nil THEN UNCHANGED vars
-  ELSE LET e == EvictTailCore IN
+  ELSE LET e == EvictTailCore(Mem) IN
        /\ slot' = e.s /\ head' = e.h /\ tail' = e.t
        /\ keymap' = [keymap EXCEPT ![e.key] = Nil]
        /\ free' = IF "evict_leaks" \in Variant THEN free ELSE Append(free, e.victim)
-       /\ UNCHANGED disk
+       /\ UNCHANGED <<cap, tsize, disk>>
 
-Checkpoint == disk' = [valid |-> TRUE, slot |-> slot, head |-> head, tail |-> tail] /\ UNCHANGED <<slot, head, tail, keymap, free>>
+Checkpoint == /\ disk' = [valid |-> TRUE, slot |-> slot, head |-> head, tail |-> tail, size |-> tsize]
+              /\ UNCHANGED <<slot, head, tail, keymap, free, cap, tsize>>
+
+\* a new tracker of capacity c on the same directory
+Reopen(c) == Becomes(Fresh(c)) /\ cap' = c /\ tsize' = c /\ UNCHANGED disk
 
 RECURSIVE WalkSlots(_, _, _)
 WalkSlots(s, i, fuel) == IF i = Nil \/ fuel = 0 THEN <<>> ELSE <<i>> \o WalkSlots(s, s[i].next, fuel - 1)
+DiskWalk  == WalkSlots(disk.slot, disk.tail, MaxCap + 1)
+DiskOrder == [j \in 1..Len(DiskWalk) |-> disk.slot[DiskWalk[j]].key]
+MostRecent(o, c) == SubSeq(o, (IF Len(o) > c THEN Len(o) - c ELSE 0) + 1, Len(o))
+
+RECURSIVE TouchAllF(_, _, _)
+TouchAllF(m, ks, j) == IF j > Len(ks) THEN m ELSE TouchAllF(TouchF(m, ks[j]), ks, j + 1)
 
 Load ==
   /\ disk.valid
-  /\ LET onlist == {WalkSlots(disk.slot, disk.tail, Cap + 1)[j] : j \in 1..Len(WalkSlots(disk.slot, disk.tail, Cap + 1))}
+  /\ LET onlist == {DiskWalk[j] : j \in 1..Len(DiskWalk)}
          active == IF "zero_is_empty" \in Variant
-                   THEN {i \in Slots : disk.slot[i].key \notin {"empty", ZKey}}
+                   THEN {i \in 1..disk.size : disk.slot[i].key \notin {"empty", ZKey}}
                    ELSE onlist
-     IN /\ slot' = disk.slot /\ head' = disk.head /\ tail' = disk.tail
-        /\ keymap' = [k \in Keys |-> IF \E i \in active : disk.slot[i].key = k
-                                     THEN CHOOSE i \in active : disk.slot[i].key = k ELSE Nil]
-        /\ free' = LET RECURSIVE F(_) F(i) == IF i > Cap THEN <<>> ELSE (IF i \in active THEN <<>> ELSE <<i>>) \o F(i + 1) IN F(1)
-        /\ UNCHANGED disk
+         \* the table as the file has it
+         adopted == [slot |-> disk.slot, head |-> disk.head, tail |-> disk.tail,
+                     keymap |-> [k \in Keys |-> IF \E i \in active : disk.slot[i].key = k
+                                                THEN CHOOSE i \in active : disk.slot[i].key = k ELSE Nil],
+                     free |-> LET RECURSIVE F(_) F(i) == IF i > disk.size THEN <<>> ELSE (IF i \in active THEN <<>> ELSE <<i>>) \o F(i + 1) IN F(1)]
+     IN IF disk.size = cap \/ "load_adopts_size" \in Variant
+        THEN Becomes(adopted) /\ tsize' = disk.size
+        ELSE \* another capacity: a fresh table of this tracker's size, the most recent keys touched in order
+             Becomes(TouchAllF(Fresh(cap), MostRecent(DiskOrder, cap), 1)) /\ tsize' = cap
+  /\ UNCHANGED <<cap, disk>>
 
 Next == \/ \E k \in Keys : Touch(k) \/ Remove(k)
         \/ EvictTail \/ Checkpoint \/ Load
+        \/ \E c \in Caps : Reopen(c)
 
 \* ---- refinement mapping and properties -------------------------------------------
-Walk == WalkSlots(slot, tail, Cap + 1)
+Walk == WalkSlots(slot, tail, MaxCap + 1)
 Order == [j \in 1..Len(Walk) |-> slot[Walk[j]].key]
 SetOf(q) == {q[j] : j \in 1..Len(q)}
 
-WalkTerminates == Len(Walk) <= Cap                       \* no cycle
+WalkTerminates == Len(Walk) <= cap                       \* no cycle, never more entries than the capacity
 WalkIsKeymap   == SetOf(Order) = {k \in Keys : keymap[k] # Nil} /\ Len(Order) = Cardinality(SetOf(Order))
-NoSlotLeaked   == SetOf(Walk) \cup SetOf(free) = Slots    \* capacity is never lost
+NoSlotLeaked   == SetOf(Walk) \cup SetOf(free) = 1..cap   \* capacity is never lost
 FreeDisjoint   == SetOf(Walk) \cap SetOf(free) = {}
-TypeOK == head \in Slots \cup {Nil} /\ tail \in Slots \cup {Nil}
+TypeOK == head \in Slots \cup {Nil} /\ tail \in Slots \cup {Nil} /\ cap \in Caps \cup {Cap}
 
 \* textbook updates of Lru.tla on a plain sequence
 Without(q, k) == SelectSeq(q, LAMBDA x : x # k)
-TextTouch(o, k) == IF Cap = 0 THEN o ELSE LET o1 == Without(o, k) IN Append(IF Len(o1) >= Cap THEN Tail(o1) ELSE o1, k)
-OrderP == [j \in 1..Len(WalkSlots(slot', tail', Cap + 1)) |-> slot'[WalkSlots(slot', tail', Cap + 1)[j]].key]
+TextTouch(o, k) == IF cap = 0 THEN o ELSE LET o1 == Without(o, k) IN Append(IF Len(o1) >= cap THEN Tail(o1) ELSE o1, k)
+OrderP == [j \in 1..Len(WalkSlots(slot', tail', MaxCap + 1)) |-> slot'[WalkSlots(slot', tail', MaxCap + 1)[j]].key]
 RefinesTouch  == [][\A k \in Keys : Touch(k) => OrderP = TextTouch(Order, k)]_vars
 RefinesRemove == [][\A k \in Keys : Remove(k) => OrderP = Without(Order, k)]_vars
 RefinesEvict  == [][EvictTail => OrderP = (IF Order = <<>> THEN <<>> ELSE Tail(Order))]_vars
-RefinesLoad   == [][Load => OrderP = [j \in 1..Len(WalkSlots(disk.slot, disk.tail, Cap + 1)) |-> disk.slot[WalkSlots(disk.slot, disk.tail, Cap + 1)[j]].key]]_vars
+RefinesLoad   == [][Load => OrderP = MostRecent(DiskOrder, cap)]_vars
+RefinesReopen == [][\A c \in Caps : Reopen(c) => OrderP = <<>>]_vars
 Spec == Init /\ [][Next]_vars
 =============================================================================
